@@ -92,7 +92,7 @@ def effective(raw):
 def gen_sexpr(rng, depth):
     r = rng.random()
     if depth <= 0 or r < 0.45:
-        return ("lit", rng.choice(VALS + ["GPL", "x y", "<&|>", "a]b", "é"[:0] + "q"]), rng.random() < 0.5)
+        return ("lit", rng.choice(VALS + ["GPL", "x y", "<&|>", "a]b", "q"]), rng.random() < 0.5)
     if r < 0.8:
         return ("var", rng.choice(VARS + ["UNSET"]), rng.random() < 0.5)
     f = rng.choice(list(FUNS))
@@ -151,6 +151,69 @@ def gen_path(rng, depth, names, nsteps, inner=False):
             st = (False, ax, gen_test(rng, names), pred)
         dsl = rng.random() < 0.3
         steps.append((dsl,) + st[1:])
+    return steps
+
+
+def glob_of(rng, nm):
+    k = rng.random()
+    if k < 0.35:
+        return nm[:rng.randint(0, len(nm))] + "*"
+    if k < 0.65:
+        return "*" + nm[rng.randint(0, len(nm)):]
+    if k < 0.9 and len(nm) > 1:
+        i = rng.randint(0, len(nm) - 1)
+        return nm[:i] + "*" + nm[i + 1:]
+    return "*" + nm[len(nm) // 2:len(nm) // 2 + 1] + "*"
+
+
+def gen_pred_guided(rng, g, m, depth, names):
+    """a predicate that is likely (not certainly) true at node m"""
+    r = rng.random()
+    if r < 0.4:
+        return ("path", False, gen_guided(rng, g, names, depth - 1, rng.choice([1, 1, 2]), {m}))
+    if r < 0.5:
+        return ("path", True, gen_guided(rng, g, names, depth - 1, rng.choice([1, 2]), {0}))
+    if r < 0.7 and g[m]["env"]:
+        v = rng.choice(sorted(g[m]["env"]))
+        val = g[m]["env"][v]
+        op = rng.choice(["==", "==", "<=", ">=", "!=", "<"])
+        return ("cmp", op, ("var", v, rng.random() < 0.5), ("lit", val if op != "<" else val + "z", rng.random() < 0.5))
+    if r < 0.8:
+        return ("and", gen_pred_guided(rng, g, m, depth - 1, names), gen_pred_guided(rng, g, m, depth - 1, names))
+    if r < 0.9:
+        return ("or", gen_pred(rng, max(0, depth - 1), names), gen_pred_guided(rng, g, m, depth - 1, names))
+    return gen_pred(rng, max(0, depth), names)
+
+
+def gen_guided(rng, g, names, depth, nsteps, start):
+    """walk the graph while generating, so that most queries select something"""
+    ctxs = set(start)
+    steps = []
+    for i in range(nsteps):
+        dsl = rng.random() < 0.25
+        cur = ctxs
+        if dsl and cur:
+            cur = set().union(*[ds_axis(g, "descendant-or-self", n) for n in cur])
+        ax = rng.choice(["child"] * 6 + ["descendant", "descendant", "descendant-or-self", "direct-child",
+                                         "direct-descendant", "direct-descendant-or-self", "self"])
+        cand = sorted(set().union(*[ds_axis(g, ax, n) for n in cur])) if cur else []
+        pred = None
+        if cand and rng.random() < 0.9:
+            m = rng.choice(cand)
+            nm = g[m]["name"]
+            k = rng.random()
+            test = "*" if (k < 0.2 or not nm) else (nm if k < 0.7 else glob_of(rng, nm))
+            if depth > 0 and rng.random() < 0.35:
+                pred = gen_pred_guided(rng, g, m, depth, names)
+        else:
+            test = gen_test(rng, names)
+            if depth > 0 and rng.random() < 0.3:
+                pred = gen_pred(rng, depth - 1, names)
+        st = (dsl, ax, test, pred)
+        if rng.random() < 0.06:
+            st = (dsl, "self", "*", None)
+        steps.append(st)
+        ctxs = ds_step(g, fix_leads([st], "abs")[0], ctxs)
     return steps
 
 
@@ -346,7 +409,8 @@ def ds_query(g, steps, mode):
     for st in steps:
         dsl, ax, test, pred = st
         ctxs = ds_step(g, st, ctxs)
-        complex_ = complex_ or dsl or ("*" in test) or pred is not None or ("descendant" in ax)
+        trivial_self = ax == "self" and test == "*" and pred is None      # '.' is the identity, no wildcard use
+        complex_ = complex_ or dsl or ("*" in test and not trivial_self) or pred is not None or ("descendant" in ax)
         if not ctxs and mode != "nullset":
             if not complex_:
                 return ("notfound",)
@@ -433,13 +497,25 @@ class Impl:
         self.num = {ids[o]: i for i, o in enumerate(order)}
         Impl.counter += 1
         self.key = ("k%d" % Impl.counter).encode()
+        self.sets = {}
+
+    def _ps(self, mode):
+        from bob.pathspec import PackageSet
+        from bob.stringparser import DEFAULT_STRING_FUNS
+        if mode not in self.sets:
+            self.sets[mode] = PackageSet(self.key, self.aliases, DEFAULT_STRING_FUNS,
+                                         lambda: _Pkg(self.raw, self.ids, 0, [""]), mode)
+        return self.sets[mode]
+
+    def close(self):
+        for ps in self.sets.values():
+            ps.close()
+        self.sets = {}
 
     def query(self, text, mode, qa, kind):
         """-> ("ok", [(stack names, node)])  | ("notfound",) | ("nomatch",) | ("syntax", msg) | ("internal", type)"""
-        from bob.pathspec import PackageSet
         from bob.errors import BobError
-        from bob.stringparser import DEFAULT_STRING_FUNS
-        ps = PackageSet(self.key, self.aliases, DEFAULT_STRING_FUNS, lambda: _Pkg(self.raw, self.ids, 0, [""]), mode)
+        ps = self._ps(mode)
         try:
             if kind == "tree":
                 res = [(list(st), self.num[n.key()]) for st, n in ps.queryTreePath(text, qa)]
@@ -462,8 +538,6 @@ class Impl:
             return ("internal", "RecursionError")
         except Exception as e:
             return ("internal", type(e).__name__ + ":" + str(e)[:100])
-        finally:
-            ps.close()
 
 
 class Scratch:
@@ -629,7 +703,7 @@ def shrink(g_raw, steps, fails):
         for i in range(len(steps)):
             for cand in ([steps[:i] + steps[i + 1:]] if len(steps) > 1 else []) + \
                         ([steps[:i] + [steps[i][:3] + (None,)] + steps[i + 1:]] if steps[i][3] is not None else []):
-                cand = fix_leads(cand, "top")
+                cand = fix_leads(cand, "abs" if cand[0][0] else "rel")
                 if fails(g_raw, cand):
                     steps = cand
                     changed = True
@@ -661,8 +735,21 @@ def make_ids(rng, n):
 
 
 def run_impl(raw, order, ids, text, mode, aliases=None):
+    """every query of a case goes through the same PackageSet: the first one builds the sqlite graph,
+    the following ones reuse it"""
     im = Impl(raw, order, ids, aliases)
-    return {(kind, qa): im.query(text, mode, qa, kind) for kind in ("tree", "pkgs") for qa in (False, True)}
+    try:
+        return {(kind, qa): im.query(text, mode, qa, kind) for kind in ("tree", "pkgs") for qa in (False, True)}
+    finally:
+        im.close()
+
+
+def one_query(raw, order, ids, aliases, text, mode, qa, kind="tree"):
+    im = Impl(raw, order, ids, aliases)
+    try:
+        return im.query(text, mode, qa, kind)
+    finally:
+        im.close()
 
 
 # =================================================================== main
@@ -690,8 +777,8 @@ def run(ctx):
     ]
     if ctx.replay:
         return replay(ctx)
-    n_graphs = ctx.n(90, 1500)
-    per_graph = ctx.n(14, 24)
+    n_graphs = ctx.n(60, 1500)
+    per_graph = ctx.n(12, 24)
     cases = []
     meta = []
     graphs_pre = []
@@ -716,11 +803,15 @@ def run(ctx):
                 qlist = []
                 for _ in range(per_graph):
                     nst = rng.choice([1, 1, 2, 2, 3, 3, 4, 5])
-                    steps = fix_leads(gen_path(rng, rng.choice([0, 1, 1, 2, 3]), names, nst), rng.choice(["rel", "abs"]))
+                    if rng.random() < 0.75:
+                        steps = gen_guided(rng, g, names, rng.choice([0, 1, 1, 2, 3]), nst, {0})
+                    else:
+                        steps = gen_path(rng, rng.choice([0, 1, 1, 2, 3]), names, nst)
                     qlist.append((steps, rng.choice(MODES)))
             for steps, mode in qlist:
                 steps = [tuple(s[:3]) + (to_tuple(s[3]),) for s in steps]
-                lead = "abs" if (steps and steps[0][0]) or rng.random() < 0.3 else "rel"
+                lead = "abs" if (kind0 == "corpus" and steps[0][0]) or (kind0 == "gen" and rng.random() < 0.4) else "rel"
+                steps = fix_leads(steps, lead)
                 text = show_path(steps, rng, lead)
                 if rng.random() < 0.1:
                     text += "/" * rng.randint(1, 2)
@@ -749,9 +840,13 @@ def run(ctx):
                 if len(ctx.cov["samples"]) < 5 and nontriv:
                     ctx.sample({"names": [r["name"] for r in g], "kids": [r["kids"] for r in g], "query": text,
                                 "mode": mode, "impl": r0})
+        t_impl = ctx.elapsed()
         aliases_and_syntax(ctx, rng)
+    t_coq = ctx.elapsed()
     bad, log = coq.run_cases(ctx, ["BobV.C18.Model"], "run4", "res4_eqb", cases, preamble=PRE + "".join(graphs_pre),
                              tag="q", shard=250)
+    ctx.note("timing: implementation+oracle until %.0fs, malformed/alias until %.0fs, model evaluation until %.0fs" % (
+        t_impl, t_coq, ctx.elapsed()))
     if bad is None:
         ctx.tie_broken("C18 model evaluation failed", log)
     else:
@@ -804,7 +899,7 @@ def minimise(ctx, raw, steps, mode):
     def outcome(raw2, steps2):
         g2, order2 = effective(raw2)
         ids2 = [b"%08x" % i for i in range(len(raw2))]
-        text2 = show_path(steps2, _NoRng(), "rel")
+        text2 = show_path(steps2, _NoRng(), "abs" if steps2[0][0] else "rel")
         res2 = run_impl(raw2, order2, ids2, text2, mode)
         sink = Sink()
         check_case(sink, g2, steps2, text2, mode, res2, {"raw": raw2, "steps": steps2, "mode": mode, "text": text2})
@@ -833,12 +928,13 @@ def aliases_and_syntax(ctx, rng):
     table = [  # query, equivalent query without aliases
         ("al", "a/c"), ("al/al", "a/c/al"), ("/al", "/zz-no-alias"), ("deep/al", "//c/al"), ("pr/c", "*[c]/c"),
         ("a/al", "a/al"), ("*[al]", "*[al]"), ("abs/c", "/b/c"), ("al//", "a/c"), ("deep", "//c"), ("pr", "*[c]"),
+        ("", "."), ("/", "."), ("//", "."),
     ]
     for q, eq in table:
         for mode in MODES:
             for qa in (False, True):
-                r1 = Impl(raw, order, ids, aliases).query(q, mode, qa, "tree")
-                r2 = Impl(raw, order, ids, {}).query(eq if eq != "/zz-no-alias" else "/al", mode, qa, "tree")
+                r1 = one_query(raw, order, ids, aliases, q, mode, qa)
+                r2 = one_query(raw, order, ids, {}, eq if eq != "/zz-no-alias" else "/al", mode, qa)
                 ctx.evaluated(2)
                 ctx.count("alias")
                 ctx.nontrivial(("alias", q, mode, qa))
@@ -848,9 +944,9 @@ def aliases_and_syntax(ctx, rng):
     bad = ["*[b < 'a']", "*['a' < 'b' == 'c']", "*[!'a' < 'b']", "*[nosuch('a')]", "a[b][c]", "..", "a/[b]", "a[", "a]",
            "*[b &&]", "child@", "nonaxis@a", "a//[b]", "*['a' 'b']", "*[eq('a',)]", "a b", "[a]", "*[()]", "*[b || || c]"]
     toks = ["a", "*", "/", "//", "[", "]", "!", "&&", "||", "'x'", '"y"', "==", "<", "(", ")", ".", "child@", "eq(", ",", "self@*"]
-    for i in range(ctx.n(300, 6000)):
+    for i in range(ctx.n(150, 6000)):
         q = bad[i] if i < len(bad) else "".join(rng.choice(toks) + rng.choice(["", "", " "]) for _ in range(rng.randint(1, 8)))
-        r = Impl(raw, order, ids, {}).query(q, "nullset", False, "tree")
+        r = one_query(raw, order, ids, {}, q, "nullset", False)
         ctx.evaluated()
         ctx.count("malformed:" + r[0])
         if r[0] == "internal":
@@ -876,7 +972,7 @@ def replay(ctx):
         mode = c.get("mode", "nullglob")
         if "steps" in c:
             steps = [tuple(s[:3]) + (to_tuple(s[3]),) for s in c["steps"]]
-            text = c.get("text") or show_path(steps, _NoRng(), "rel")
+            text = c.get("text") or show_path(steps, _NoRng(), "abs" if steps[0][0] else "rel")
             res = run_impl(raw, order, ids, text, mode, c.get("aliases"))
             print("query %r mode %s" % (text, mode))
             for k, v in res.items():
@@ -884,7 +980,7 @@ def replay(ctx):
             print("  declarative: %r" % (ds_query(g, steps, mode),))
             check_case(ctx, g, steps, text, mode, res, c)
         else:
-            r = Impl(raw, order, ids, c.get("aliases")).query(c["text"], mode, False, "tree")
+            r = one_query(raw, order, ids, c.get("aliases"), c["text"], mode, False)
             print("query %r -> %r" % (c["text"], r))
             if r[0] == "internal":
                 ctx.violation("internal-exception", "replayed", c)
